@@ -1,3 +1,3 @@
 #![no_main]
 // Oracle and input layout: /verif/harness/chk-wire/src/fuzzapi.rs (ms_listener)
-libfuzzer_sys::fuzz_target!(|data: &[u8]| chk_wire::fuzzapi::ms_listener(data));
+libfuzzer_sys::fuzz_target!(|data: &[u8]| chk_wire::fuzzapi::fuzz_main(chk_wire::fuzzapi::ms_listener, data));
